@@ -190,7 +190,20 @@ def judge_util(R, it, r, lean_ans):
 
 
 def gen_vals(R, n, m):
-    kind = R.rng.randrange(3)
+    kind = R.rng.randrange(4)
+    if kind == 3 and m >= 2:
+        # near ties: two alternatives whose total utility differs by a relative 1e-6 .. 1e-8 (distinct, so exactly one wins)
+        rows = [[R.rng.choice([0.5, 1.0, 2.0, 3.0]) for _ in range(m)] for _ in range(n)]
+        a, b = R.rng.sample(range(m), 2)
+        for row in rows:
+            row[b] = row[a]
+        rows[R.rng.randrange(n)][b] *= (1 + R.rng.choice([1e-6, 1e-7, 1e-8]))
+        top = max(sum(r[j] for r in rows) for j in range(m))
+        for row in rows:      # make the near-tied pair the leaders
+            for j in range(m):
+                if j not in (a, b):
+                    row[j] = min(row[j], row[a] * 0.5)
+        return rows
     rows = []
     for _ in range(n):
         if kind == 0:
